@@ -251,6 +251,9 @@ func genType(rng *hx.Rng, depth int) *gt {
 		seen := map[string]bool{}
 		for len(t.fields) < n {
 			nm := genName(rng)
+			if len(t.fields) > 0 && rng.Chance(0.25) { // one name a prefix of another
+				nm = t.fields[rng.Intn(len(t.fields))].name + string(nameTail[rng.Intn(len(nameTail))])
+			}
 			if seen[strings.ToLower(nm)] {
 				continue
 			}
@@ -343,11 +346,14 @@ func sites(t *gt, isKey bool, acc *[]site) {
 func perturb(rng *hx.Rng, t *gt) string {
 	var ss []site
 	sites(t, false, &ss)
-	for try := 0; try < 20; try++ {
+	for try := 0; try < 40; try++ {
 		s := ss[rng.Intn(len(ss))]
 		p := s.p
 		switch rng.Intn(7) {
 		case 0: // another class
+			if try < 30 && !rng.Chance(0.2) { // always applicable: keep it from crowding out the other edits
+				continue
+			}
 			for {
 				n := genType(rng, 1)
 				if s.isKey && n.k >= gSlice {
@@ -772,6 +778,41 @@ func agreeGo(ta, tb *gt, a, b reflect.Value, path string) string {
 	return ""
 }
 
+// otherKindReached: converting v : from into `to` meets, at the top or at an element, key or
+// matched field that v holds, two kinds of different classes (mirrors Conv.other_kind_reached;
+// the run file checks that both agree on every case)
+func otherKindReached(to, from *gt, v reflect.Value) bool {
+	if to.class() != from.class() {
+		return true
+	}
+	switch to.k {
+	case gSlice:
+		for i := 0; i < v.Len(); i++ {
+			if otherKindReached(to.elem, from.elem, v.Index(i)) {
+				return true
+			}
+		}
+	case gMap:
+		for _, k := range v.MapKeys() {
+			if otherKindReached(to.key, from.key, k) || otherKindReached(to.elem, from.elem, v.MapIndex(k)) {
+				return true
+			}
+		}
+	case gStruct:
+		for _, f := range to.fields {
+			for j, g := range from.fields {
+				if strings.EqualFold(f.name, g.name) {
+					if otherKindReached(f.t, g.t, v.Field(j)) {
+						return true
+					}
+					break
+				}
+			}
+		}
+	}
+	return false
+}
+
 type c20obs struct {
 	err      error
 	panicked string
@@ -827,6 +868,9 @@ func runC20(res *hx.Result, rng *hx.Rng, tier string, outdir string) {
 		"targets are derived from the source type by widening, field permutation and re-casing (compatible) and then perturbed at one place " +
 		"(class change, narrowing, sign change, missing/extra/ambiguous field) for the rest; " +
 		"non-trivial = the source type contains a map or a container nested in a container; distinct by sha256 of (types, canonical value)"
+	// hx.NewRng(seed) and hx.NewRng(seed+1) produce the same stream shifted by one draw (the seed is
+	// multiplied by the generator's own increment); re-seeding from the first output decorrelates them
+	rng = hx.NewRng(rng.U64())
 	n := 1000
 	if tier == "thorough" {
 		n = 40000
@@ -844,6 +888,7 @@ func runC20(res *hx.Result, rng *hx.Rng, tier string, outdir string) {
 		canon := coqVal(t1, src)
 		desc := fmt.Sprintf("%s: %s -> %s, value %s", kind, t1, t2, canon)
 		comp := compatGo(t1, t2)
+		other := otherKindReached(t2, t1, src)
 		known := defect && hasNonEmptyMap(t1, src)
 		fail := func(oracle, detail string) {
 			if known {
@@ -884,6 +929,11 @@ func runC20(res *hx.Result, rng *hx.Rng, tier string, outdir string) {
 			}
 		} else if t1.class() != t2.class() && o.err == nil {
 			res.Fail("other-kind-accepted", fmt.Sprintf("%s: kinds of different classes were converted, result %s", desc, coqVal(t2, o.dst)))
+		} else if other && o.err == nil {
+			fail("other-kind-accepted", fmt.Sprintf("%s: an element, key or field of a kind of another class was converted, result %s", desc, coqVal(t2, o.dst)))
+		}
+		if other {
+			res.Dist("other-kind-reached")
 		}
 		nontrivial := t1.hasMap() || (t1.depth() >= 2)
 		res.Count(t1.coq()+"|"+t2.coq()+"|"+canon, nontrivial)
@@ -901,12 +951,12 @@ func runC20(res *hx.Result, rng *hx.Rng, tier string, outdir string) {
 			res.Dist("not-judged(same class, outside the compatible fragment)")
 		}
 		res.Sample(desc + " => " + resTerm)
-		cf.Add("cases", fmt.Sprintf("{| c_from := %s; c_to := %s; c_val := %s; c_compat := %s; c_res := %s |}",
-			t1.coq(), t2.coq(), canon, hx.Bool(comp), resTerm), desc)
+		cf.Add("cases", fmt.Sprintf("{| c_from := %s; c_to := %s; c_val := %s; c_compat := %s; c_other := %s; c_res := %s |}",
+			t1.coq(), t2.coq(), canon, hx.Bool(comp), hx.Bool(other), resTerm), desc)
 	}
 
 	for i := 0; i < n; i++ {
-		t1 := genType(rng, rng.Pick(0, 1, 1, 2, 2, 3))
+		t1 := genType(rng, rng.Pick(0, 1, 1, 2, 2, 2, 3, 3))
 		t2 := widen(rng, t1)
 		kind := "compatible"
 		switch r := rng.Intn(10); {
@@ -938,9 +988,13 @@ func runC20(res *hx.Result, rng *hx.Rng, tier string, outdir string) {
 				}
 			}
 			kind = "top-class-mismatch"
-		default:
+		case r < 8:
 			if k := perturb(rng, t2); k != "" {
 				kind = k
+			}
+		default: // the same edits on the source side (the target keeps the compatible shape)
+			if k := perturb(rng, t1); k != "" {
+				kind = "source-" + k
 			}
 		}
 		one(t1, t2, kind)
